@@ -149,11 +149,34 @@ def incoming (s : State) (p : Nat) (haves dontHaves : List Nat) (blocks : List (
     let (s, nb) := blocks.foldl (fun (acc : State × List (Nat × Nat)) kd => applyBlock acc.1 p kd.1 kd.2 acc.2) (s, [])
     if nb.isEmpty then s else (pushTask s (.put nb)).1
 
-/-- `sending_state_changed` -/
-def sendingChanged (s : State) (p : Nat) (st : Sending) : State :=
+/-- The connection a transmission is tracked on (`None` for `Ready`). -/
+def Sending.conn? : Sending → Option Nat
+  | .ready => none
+  | .requested _ c => some c
+  | .requestReceived c => some c
+  | .sending c => some c
+  | .failed c => some c
+
+/-- The peer's sending state is overwritten. -/
+def setSending (s : State) (p : Nat) (st : Sending) : State :=
   match s.peers[p]? with
   | some ps => { s with peers := s.peers.insert p { ps with sending := st } }
   | none => s
+
+/-- The current transmission to `p` is tracked on a connection other than `src`. -/
+def tracksOther (s : State) (p src : Nat) : Bool :=
+  match s.peers[p]? with
+  | some ps =>
+    match ps.sending.conn? with
+    | some c => c != src
+    | none => false
+  | none => false
+
+/-- `sending_state_changed`: `src` is the connection whose handler reports. A report from a
+connection other than the one the current transmission is tracked on is ignored (that
+connection was given up after `RECEIVE_REQUEST_TIMEOUT`). -/
+def sendingChanged (s : State) (p src : Nat) (st : Sending) : State :=
+  if tracksOther s p src then s else setSending s p st
 
 /-- One task of the ready-to-run queue is polled. -/
 def pollTask (s : State) (seq : Nat) (id : Nat) : State × Nat × List Out :=
@@ -199,11 +222,12 @@ def pollTasks (s : State) (seq : Nat) : List Nat → State × Nat × List Out
 
 /-- `established_connections.iter().next()`: the code takes whichever connection the hash
 set yields first. The model is nondeterministic here: `pref` is the observed / quantified
-choice, honoured when it is a member; any member can be chosen this way. -/
+choice, honoured when it is a member; any member can be chosen this way. The fallback is the
+least element (`toList` is ascending; written this way because it reduces in the kernel). -/
 def pickConn (conns : KSet) (pref : Option Nat) : Nat :=
   match pref with
-  | some c => if c ∈ conns then c else conns.min?.getD 0
-  | none => conns.min?.getD 0
+  | some c => if c ∈ conns then c else conns.toList.head?.getD 0
+  | none => conns.toList.head?.getD 0
 
 /-- The per-peer part of `update_handlers`. Returns the new peer state (`none` = the peer has
 no connection left and is dropped) and the wantlist handed to a connection, if any. -/
@@ -272,7 +296,7 @@ inductive Op where
   | cancel (q : Nat)
   | complete (seq : Nat) (r : StoreRes)
   | msg (p : Nat) (haves dontHaves : List Nat) (blocks : List (Nat × Nat))
-  | sending (p : Nat) (st : Sending)
+  | sending (p src : Nat) (st : Sending)
   | tick (ms : Nat)
   | drain (pref : Nat → Option Nat)
   | takeNewBlocks
@@ -284,7 +308,7 @@ def step (x : Sys) : Op → Sys × List Out
   | .cancel q => ({ x with s := cancel x.s q }, [])
   | .complete n r => ({ x with s := (complete x.s n r).getD x.s }, [])
   | .msg p hs ds bs => ({ x with s := incoming x.s p hs ds bs }, [])
-  | .sending p st => ({ x with s := sendingChanged x.s p st }, [])
+  | .sending p src st => ({ x with s := sendingChanged x.s p src st }, [])
   | .tick ms => ({ x with now := x.now + ms }, [])
   | .drain pref =>
     let (s, seq, outs) := drain x.s x.now x.seq pref
